@@ -11,6 +11,7 @@ import (
 	"math/rand"
 	"net"
 	"strings"
+	"time"
 
 	"github.com/go-netty/go-netty/transport"
 
@@ -82,6 +83,9 @@ const (
 	opWritev
 	opFlush
 	opRead
+	// opDeadline: SetWriteDeadline / SetReadDeadline / SetDeadline with a zero or far-future time (what the channel does
+	// around every synchronous CtxWrite): a control call that must not touch the data path
+	opDeadline
 )
 
 type op struct {
@@ -97,6 +101,8 @@ func (o op) String() string {
 		return "V" + strings.ReplaceAll(fmt.Sprint(o.Sz), " ", ",")
 	case opFlush:
 		return "F"
+	case opDeadline:
+		return fmt.Sprintf("D%d", o.Sz[0])
 	}
 	return fmt.Sprintf("R%d", o.Sz[0])
 }
@@ -120,7 +126,10 @@ func opsString(ops []op, max int) string {
 func shape(ops []op, eff int) string {
 	var sb strings.Builder
 	for _, o := range ops {
-		sb.WriteByte("WVFR"[o.K])
+		sb.WriteByte("WVFRD"[o.K])
+		if o.K == opDeadline {
+			continue
+		}
 		for _, s := range o.Sz {
 			switch {
 			case s == 0:
@@ -187,7 +196,9 @@ func genOps(rng *rand.Rand, eff, raw int, withReads bool) []op {
 				}
 			}
 			ops = append(ops, op{opWritev, sz})
-		case r < 78 || !withReads:
+		case r < 62:
+			ops = append(ops, op{opDeadline, []int{rng.Intn(6)}})
+		case r < 80 || !withReads:
 			pending = 0
 			ops = append(ops, op{opFlush, nil})
 		default:
@@ -323,6 +334,18 @@ func (w *writer) do(o op) error {
 		return err
 	case opFlush:
 		return w.t.Flush()
+	case opDeadline:
+		var d time.Time
+		if o.Sz[0]%2 == 1 {
+			d = time.Now().Add(time.Hour)
+		}
+		switch o.Sz[0] / 2 {
+		case 0:
+			return w.t.SetWriteDeadline(d)
+		case 1:
+			return w.t.SetReadDeadline(d)
+		}
+		return w.t.SetDeadline(d)
 	}
 	return nil
 }
@@ -386,6 +409,16 @@ func max(a, b int) int {
 
 func run(c *core.Ctx) {
 	runConcurrent(c)
+	for idx, n := 0, c.Scale(1500, 60000); idx < n; idx++ {
+		if !c.Mine(idx) {
+			continue
+		}
+		id := fmt.Sprintf("churn%d", idx)
+		if !c.CaseQuiet(id) {
+			continue
+		}
+		runChurn(c, id, idx)
+	}
 	nMem := c.Scale(4000, 400000)
 	for idx := 0; idx < nMem; idx++ {
 		if !c.Mine(idx) {
@@ -500,9 +533,9 @@ func runMem(c *core.Ctx, id string, idx int, mc *memCase) {
 		default:
 			before := len(conn.farLog())
 			err := w.do(o)
-			c.Count([]string{"ops_write", "ops_writev", "ops_flush"}[o.K], 1)
+			c.Count([]string{"ops_write", "ops_writev", "ops_flush", "", "ops_set_deadline"}[o.K], 1)
 			if err != nil {
-				fail("C17:"+[]string{"write", "writev", "flush"}[o.K]+"-error-on-healthy-conn", i, fmt.Sprintf("%v failed with %v although the connection accepts everything", o, err), nil)
+				fail("C17:"+[]string{"write", "writev", "flush", "", "set-deadline"}[o.K]+"-error-on-healthy-conn", i, fmt.Sprintf("%v failed with %v although the connection accepts everything", o, err), nil)
 				return
 			}
 			if o.K == opWritev {
